@@ -1543,7 +1543,8 @@ class ComplexModulus(Operator):
                         out.assign(x)
                         tmp = u / op(x)
                         out.real *= tmp
-                        out.imag *= tmp
+                        if out.space.is_complex:
+                            out.imag *= tmp
                         return out
 
                     @property
@@ -1738,7 +1739,8 @@ class ComplexModulusSquared(Operator):
                         """Implement ``self(u, out)``."""
                         out.assign(x)
                         out.real *= u
-                        out.imag *= u
+                        if out.space.is_complex:
+                            out.imag *= u
                         out *= 2
                         return out
 
